@@ -32,6 +32,22 @@ fn main() {
 		usage();
 	}
 	let code = match args[1].as_str() {
+		"run" if args.len() >= 4 && args[2] == "C10" => {
+			let seed = args
+				.get(4)
+				.and_then(|s| s.parse().ok())
+				.or_else(|| std::env::var("VERIF_SEED").ok().and_then(|s| s.parse().ok()))
+				.unwrap_or(1);
+			props::c10::run(args[3] == "thorough", seed)
+		}
+		"run" if args.len() >= 4 && args[2] == "C20" => {
+			let seed = args
+				.get(4)
+				.and_then(|s| s.parse().ok())
+				.or_else(|| std::env::var("VERIF_SEED").ok().and_then(|s| s.parse().ok()))
+				.unwrap_or(1);
+			props::c20::run(args[3] == "thorough", seed)
+		}
 		"run" if args.len() >= 4 => {
 			let sp = spec(&args[2]).unwrap_or_else(|| usage());
 			let thorough = args[3] == "thorough";
